@@ -12,6 +12,8 @@ import (
 	"sync"
 
 	"github.com/containerd/ttrpc"
+	"google.golang.org/grpc/codes"
+	"google.golang.org/grpc/status"
 
 	"github.com/containerd/nri/pkg/api"
 	"github.com/containerd/nri/pkg/net/multiplex"
@@ -53,10 +55,11 @@ const (
 	errProtocol
 	errDeadline
 	errHandler
+	errHandlerStatus
 	numErrKinds
 )
 
-var errKindNames = [...]string{"ok", "ttrpc-closed", "ttrpc-server-closed", "ttrpc-protocol", "deadline", "handler-error"}
+var errKindNames = [...]string{"ok", "ttrpc-closed", "ttrpc-server-closed", "ttrpc-protocol", "deadline", "handler-error", "handler-status-error"}
 
 func envError(kind int, depth int) error {
 	var e error
@@ -71,6 +74,13 @@ func envError(kind int, depth int) error {
 		e = context.DeadlineExceeded
 	case errHandler:
 		e = errors.New("handler says no")
+	case errHandlerStatus:
+		// what a handler error looks like after crossing ttrpc: a status error whose code is the plugin's
+		// choice (any of the 16 non-OK codes, symbolic); the runtime's own deadline is errDeadline above
+		c := nondetUint32()
+		assume(c >= 1)
+		assume(c <= 16)
+		e = status.Error(codes.Code(c), "handler says no")
 	default:
 		return nil
 	}
